@@ -11,21 +11,21 @@ need_build=0
 if [ ! -f $wt/.built_at ] || [ "$(cat $wt/.built_at)" != "$(cd /verif && /venv/bin/python -c 'from wv import build; print(build.native_key())')" ]; then need_build=1; fi
 if [ $need_build = 1 ]; then /venv/bin/python setup.py build_ext --inplace -q >/dev/null 2>&1; (cd /verif && /venv/bin/python -c 'from wv import build; print(build.native_key())') > $wt/.built_at; fi
 cp $sd/demo.py $wt/_demo.py
-/venv/bin/python _demo.py >/tmp/demo_clean.out 2>&1; rc_clean=$?
-if ! git apply $sd/patch.diff 2>/tmp/apply.err; then git apply --3way $sd/patch.diff 2>>/tmp/apply.err || { echo "PATCH DOES NOT APPLY to current HEAD"; cat /tmp/apply.err; rm -f _demo.py; git checkout -q -- .; exit 3; }; git reset -q; fi
+/venv/bin/python _demo.py >/tmp/demo_clean.$sid.out 2>&1; rc_clean=$?
+if ! git apply $sd/patch.diff 2>/tmp/apply.$sid.err; then git apply --3way $sd/patch.diff 2>>/tmp/apply.$sid.err || { echo "PATCH DOES NOT APPLY to current HEAD"; cat /tmp/apply.$sid.err; rm -f _demo.py; git checkout -q -- .; exit 3; }; git reset -q; fi
 if [ $native -gt 0 ]; then /venv/bin/python setup.py build_ext --inplace -q >/dev/null 2>&1; fi
-/venv/bin/python _demo.py >/tmp/demo_mut.out 2>&1; rc_mut=$?
+/venv/bin/python _demo.py >/tmp/demo_mut.$sid.out 2>&1; rc_mut=$?
 rm -f _demo.py
 tests=$(/venv/bin/python -m pytest -q -p no:cacheprovider --timeout=900 2>&1 | tail -1)
-git diff > /tmp/confirmed.diff
+git diff > /tmp/confirmed.$sid.diff
 git checkout -q -- .
 if [ $native -gt 0 ]; then /venv/bin/python setup.py build_ext --inplace -q >/dev/null 2>&1; fi
-echo "demo clean rc=$rc_clean, demo mutated rc=$rc_mut (FAIL printed: $(grep -c FAIL /tmp/demo_mut.out)), tests with change: $tests"
+echo "demo clean rc=$rc_clean, demo mutated rc=$rc_mut (FAIL printed: $(grep -c FAIL /tmp/demo_mut.$sid.out)), tests with change: $tests"
 ok=0
-if [ $rc_clean = 0 ] && { [ $rc_mut != 0 ] || grep -q FAIL /tmp/demo_mut.out; } && echo "$tests" | grep -q "430 passed"; then ok=1; fi
+if [ $rc_clean = 0 ] && { [ $rc_mut != 0 ] || grep -q FAIL /tmp/demo_mut.$sid.out; } && echo "$tests" | grep -q "430 passed"; then ok=1; fi
 if [ $ok = 1 ]; then
   d=/verif/seeded/$sid; mkdir -p $d
-  cp /tmp/confirmed.diff $d/patch.diff; cp $sd/demo.py $d/demo.py; cp $sd/notes.md $d/notes.md 2>/dev/null
+  cp /tmp/confirmed.$sid.diff $d/patch.diff; cp $sd/demo.py $d/demo.py; cp $sd/notes.md $d/notes.md 2>/dev/null
   cat > $d/meta.json <<EOM
 {
  "seed_id": "$sid",
@@ -38,5 +38,5 @@ if [ $ok = 1 ]; then
 EOM
   echo "CONFIRMED -> $d"
 else
-  echo "NOT CONFIRMED"; tail -5 /tmp/demo_clean.out; echo ---; tail -5 /tmp/demo_mut.out
+  echo "NOT CONFIRMED"; tail -5 /tmp/demo_clean.$sid.out; echo ---; tail -5 /tmp/demo_mut.$sid.out
 fi
